@@ -174,7 +174,63 @@ def uses(pk, part=None):
         sigs = [f["sig"] for f in pk["funcs"] if f.get("file") == part]
         return {"ctx": "ctx" in sigs, "mg": False, "probe": bool(sigs)}
     sigs = [f["sig"] for f in pk["funcs"] if not f.get("file")] + [m["sig"] for n in pk["ns"] for m in n["methods"]]
-    return {"ctx": "ctx" in sigs, "mg": bool(pk["ns"]), "probe": bool(sigs)}
+    return {"ctx": "ctx" in sigs, "mg": bool(pk["ns"]) or bool(pk.get("zoo")), "probe": bool(sigs)}
+
+
+# DECLARATION KINDS that are NOT targets (C06's classification of go/doc's mode-0 view): every one
+# has an exported, target-compatible function or method somewhere, and none may be exposed - and
+# the project must still build.
+ZOO = '''
+// an UNEXPORTED namespace type with an exported method: go/doc (mode 0) does not show the type
+type zooSteps mg.Namespace
+
+// Prepare would be a target if its type were exported.
+func (zooSteps) ZooPrepare() error { return nil }
+
+// an exported namespace type with an unexported method (ZooNs itself contributes nothing)
+type ZooNs mg.Namespace
+
+func (ZooNs) zooHidden() {}
+
+// methods of types that are no namespaces, exported and not
+type ZooPlain struct{}
+
+// ZooRun is a method of an ordinary type.
+func (ZooPlain) ZooRun() {}
+
+type zooInt int
+
+func (zooInt) ZooGo() error { return nil }
+
+// an unexported function with a target signature
+func zooSecret() error { return nil }
+
+// functions go/doc files under a type: constructors returning a type of the package
+func NewZooPlain() ZooPlain { return ZooPlain{} }
+
+// MakeZooPlain returns a pointer.
+func MakeZooPlain() *ZooPlain { return &ZooPlain{} }
+
+// a type ALIAS of mg.Namespace (it cannot have methods of its own)
+type ZooAlias = mg.Namespace
+
+// a namespace type defined through another defined type: textually not mg.Namespace
+type ZooBase mg.Namespace
+type ZooDerived ZooBase
+
+// ZooBuild is a method of a type that is only indirectly a namespace.
+func (ZooDerived) ZooBuild() {}
+
+// a struct EMBEDDING the namespace type
+type ZooEmb struct{ mg.Namespace }
+
+// ZooDo is a method of a struct.
+func (ZooEmb) ZooDo() error { return nil }
+
+var _ = zooSecret
+var _ = zooInt(0)
+var _ = zooSteps{}
+'''
 
 
 def render_package(proj, pk):
@@ -202,6 +258,8 @@ def render_package(proj, pk):
     render_targets(out, pk, path, u)
     for n in pk.get("unexported", []):
         out.append("func %s() {}\n" % n)
+    if pk.get("zoo"):
+        out.append(ZOO)
     if pk.get("nontarget"):
         out.append("// NotATarget has a parameter type mage does not support.\nfunc NotATarget(f float64) float64 { return f }\n")
         out.append("type plain struct{}\n\n// Method of an ordinary type.\nfunc (plain) Method() {}\n")
@@ -273,6 +331,8 @@ def render_magefile(proj, f, first):
         out.append("import (\n\t" + "\n\t".join(imps) + "\n)\n")
     out += mentions
     out.append("")
+    if first and loc.get("zoo"):
+        out.append(ZOO)
     if first and loc.get("default"):
         out.append("var Default = %s\n" % loc["default"])
     render_targets(out, loc, "", u)
